@@ -585,7 +585,7 @@ Section Rank.
           intros rb Hi. split; [|auto]. destruct (Nat.eq_dec id (b_evp x)) as [->|Hne]; [congruence|apply (Keep id st rb Hst Hi); left; exact Hne].
       + intros y Hy. apply K3. unfold w2 in Hy; cbn [set_props w_props] in Hy. rewrite lookup_bind in Hy. destruct (Nat.eqb_spec y p) as [E|E]; [rewrite E, Hp; discriminate|rewrite <- P1; exact Hy].
     - (* PMoveCtor: the destination takes the rank of the source *)
-      destruct (PropMove.movector_shape fn rtl fuel w src dst w' Hinv Hna HNE H) as (s0 & dn & sn & Hs & Hd & Hne & Vd & Ud & Vs & Us & PW & Sw & HB & _ & HT & EV & LEN).
+      destruct (PropMove.movector_shape fn rtl fuel w src dst w' Hinv HNE H) as (s0 & dn & sn & Hs & Hd & Hne & Vd & Ud & Vs & Us & PW & Sw & HB & _ & HT & EV & LEN).
       assert (Pd : pview w dst = None) by (unfold pview; rewrite Hd; reflexivity).
       set (rk' := bump rk dst (rk src)).
       assert (Erk : forall y, y <> dst -> rk' (PropMove.rn src dst y) = rk y).
@@ -617,7 +617,7 @@ Section Rank.
         destruct (Nat.eqb_spec y src) as [Eys|Hys]; [subst y; apply K3; rewrite Hs; discriminate|exact (K3 y Hy)].
     - (* PMoveAssign over an unread destination: the destination takes the rank of the source, its old binding leaves the registry *)
       pose proof (PropGrowMore.no_reader_sound w dst Ho) as Hnr.
-      destruct (PropMove.moveassign_shape fn rtl fuel w dst src w' Hinv Hna HNE Hnr H)
+      destruct (PropMove.moveassign_shape fn rtl fuel w dst src w' Hinv HNE Hnr H)
         as (s0 & d0 & dn & sn & Hs & Hd & Hne & Vd & Ud & Vs & Us & PW & Sw & HB & HT & HD & LEN).
       assert (Pd : pview w dst = Some (psigs_of d0)) by (unfold pview; rewrite Hd; reflexivity).
       set (rk' := bump rk dst (rk src)).
